@@ -62,7 +62,9 @@ type mutation struct {
 	apply  func(m *pbsubstreams.Modules) bool // false: not applicable
 }
 
-func clone(m *pbsubstreams.Modules) *pbsubstreams.Modules { return proto.Clone(m).(*pbsubstreams.Modules) }
+func clone(m *pbsubstreams.Modules) *pbsubstreams.Modules {
+	return proto.Clone(m).(*pbsubstreams.Modules)
+}
 
 func mutations(g modgen.GraphSpec) []mutation {
 	var out []mutation
